@@ -3,6 +3,7 @@ mod js;
 mod rng;
 mod gen;
 mod synth_tz;
+mod synth_tzif;
 mod proj;
 mod ops;
 mod ops_date;
